@@ -102,9 +102,11 @@ def compare(ctx, cfg, tag, sc, ref, r, selftest=None):
     log = r["log"]
     if selftest:
         log = pc.corrupt(log, selftest, random.Random(len(tag) + cfg[1]))
+    # parallel runs: name the situation of the scenario in which dying actors make the kernel work concurrently (see death_hazards)
+    hz = (":hazard=" + (pc.death_hazards(ref["log"]) or "none")) if par else ""
     if (r["rc"], r["sig"]) != (ref["rc"], ref["sig"]):
-        ctx.violation("C02:diverge:exit-status:%s:%s:rc=%s/sig=%s-vs-rc=%s/sig=%s" %
-                      (cfg_class(cfg), cfg[0], ref["rc"], ref["sig"], r["rc"], r["sig"]),
+        ctx.violation("C02:diverge:%s:exit-status:rc=%s/sig=%s-vs-rc=%s/sig=%s%s" %
+                      (cfg_class(cfg), ref["rc"], ref["sig"], r["rc"], r["sig"], hz),
                       "scenario %s %s: %s ends with rc=%s sig=%s, %s with rc=%s sig=%s\n%s" %
                       (tag, sc["motifs"], name_of(REF), ref["rc"], ref["sig"], nm, r["rc"], r["sig"], pc.scrub(r["err"])[-1200:]), witness)
         return False
@@ -114,7 +116,7 @@ def compare(ctx, cfg, tag, sc, ref, r, selftest=None):
     if d is None:
         return True
     key, text, det = d
-    key = key.replace("C02:diverge:", "C02:diverge:%s:" % cfg_class(cfg), 1)
+    key = key.replace("C02:diverge:", "C02:diverge:%s:" % cfg_class(cfg), 1) + hz
     ctx.count("divergences.%s" % cfg_class(cfg))
     ctx.violation(key, "scenario %s %s: %s and %s differ (%s)\n%s" % (tag, sc["motifs"], name_of(REF), nm,
                                                                      "per-actor sequences" if par else "complete logs", text), witness)
@@ -122,36 +124,43 @@ def compare(ctx, cfg, tag, sc, ref, r, selftest=None):
 
 
 # ---- ThreadSanitizer leg ----------------------------------------------------------------------------------------
-_FRAME = re.compile(r"^\s+#(\d+) (\S+)? ?(.*?) (\S+:\d+|\(\S+\))")
+def _short(fn):
+    fn = re.sub(r"\(.*", "", fn).strip()
+    return fn.replace("simgrid::kernel::", "").replace("simgrid::", "")
 
 
 def tsan_reports(err):
-    """Split a TSan stderr into reports: list of (headline, [top frames of each stack], involves_simgrid)."""
+    """Data race reports of a TSan stderr: list of (stable tag, involves libsimgrid, text). The tag names, for each of the two
+    accesses, the first two simgrid frames of its stack (boost/std internals, lambdas and line numbers are skipped), sorted."""
     reps = []
     cur = None
     for line in (err or "").splitlines():
         if "WARNING: ThreadSanitizer:" in line:
-            cur = {"head": line.split("ThreadSanitizer:", 1)[1].split("(pid")[0].strip(), "stacks": [], "text": [line]}
+            cur = {"head": line.split("ThreadSanitizer:", 1)[1].split("(pid")[0].strip(), "stacks": [], "text": [line], "on": False}
             reps.append(cur)
             continue
         if cur is None:
             continue
         cur["text"].append(line)
         s = line.strip()
-        if s.startswith("#0 ") or (s.startswith("#") and cur["stacks"] and len(cur["stacks"][-1]) < 3):
+        if re.match(r"^(Read|Write|Previous|Atomic)", s, re.I) and " by " in s:
+            cur["stacks"].append([])
+            cur["on"] = True
+        elif s.startswith("#") and cur["on"] and cur["stacks"]:
             fn = re.sub(r"^#\d+ ", "", s)
-            fn = re.sub(r" /\S+$| \(\S+\)$", "", fn)             # drop file:line / (module+off)
-            fn = re.sub(r"\(.*", "", fn).strip()                   # drop the argument list
-            if s.startswith("#0 "):
-                cur["stacks"].append([fn])
-            else:
-                cur["stacks"][-1].append(fn)
+            if fn.startswith("simgrid::") and len(cur["stacks"][-1]) < 2:
+                cur["stacks"][-1].append(_short(fn.split(" ../")[0].split(" /")[0]))
+        elif not s:
+            cur["on"] = False
         if line.startswith("SUMMARY: ThreadSanitizer"):
             cur = None
     out = []
     for r in reps:
+        if r["head"] != "data race":
+            continue                      # thread leaks come from the harness never destroying its Engine
         text = "\n".join(r["text"])
-        out.append((r["head"], r["stacks"][:2], "simgrid::" in text or "libsimgrid" in text, text))
+        tag = " || ".join(sorted(set("<".join(st) for st in r["stacks"][:2] if st))) or "no-simgrid-frame"
+        out.append((tag, "simgrid::" in text or "libsimgrid" in text, text))
     return out
 
 
@@ -177,15 +186,13 @@ def tsan_leg(ctx, scs, budget):
                 ctx.inconclusive("watchdog:tsan:%s" % name_of(cfg))
                 continue
             ctx.count("tsan.runs")
-            for head, stacks, ours, text in tsan_reports(r["err"]):
-                ctx.count("tsan.reports")
+            for tag_, ours, text in tsan_reports(r["err"]):
+                ctx.count("tsan.data_race_reports")
                 if not ours:
                     ctx.count("tsan.reports_outside_simgrid(ignored)")
                     continue
-                tops = sorted(" < ".join(st[:2]) for st in stacks)
-                key = "C02:tsan:%s:%s:%s" % (head.split()[0] + "-" + head.split()[1] if len(head.split()) > 1 else head, cfg[0],
-                                             " || ".join(tops))
-                ctx.violation(pc.scrub(key)[:300], "ThreadSanitizer under %s, scenario %s %s:\n%s" % (name_of(cfg), tag, sc["motifs"], pc.scrub(text)[:3000]),
+                ctx.violation(pc.scrub("C02:tsan:data-race:" + tag_)[:300],
+                              "ThreadSanitizer under %s, scenario %s %s:\n%s" % (name_of(cfg), tag, sc["motifs"], pc.scrub(text)[:3500]),
                               {"scenario": sc["text"], "motifs": sc["motifs"], "config": list(cfg), "tsan": True})
 
 
